@@ -3,7 +3,7 @@
     received buffers (currentFrameDone discipline). *)
 From Coq Require Import List ZArith Lia Bool Permutation.
 From V Require Import Gen.Params Lib.Hex FrameSorter.Model FrameSorter.InvCheck FrameSorter.Spec
-  FrameSorter.ProofsBase FrameSorter.ProofsLoops FrameSorter.ProofsPop FrameSorter.ProofsPeek FrameSorter.ProofsRun
+  FrameSorter.ProofsBase FrameSorter.ProofsLoops FrameSorter.ProofsPop FrameSorter.ProofsPeek FrameSorter.ProofsRun FrameSorter.ProofsGapLimit
   RecvStream.Model RecvStream.Spec RecvStream.ProofsRecv.
 Import ListNotations.
 Open Scope Z_scope.
@@ -1154,6 +1154,90 @@ Theorem recv_peek_live_reset w ops r n s' d e bug : 0 <= w < MaxBC -> Forall rva
   e <> EWouldBlock.
 Proof.
   intros Hw Hv Hs Hn HP. destruct (reach_both w ops r Hw Hv Hs) as (R&R2). eapply Peek_live_reset; eauto.
+Qed.
+
+(** * a history of the stream fails only with a genuine transport error *)
+Lemma fcUpdate_classes s offset final s1 e : fcUpdate s offset final = (s1, e) ->
+  e = FNil \/ e = FFinalSize \/ e = FFlowControl.
+Proof.
+  unfold fcUpdate. intros Ef.
+  repeat match type of Ef with context [if ?c then _ else _] => destruct c end; inversion Ef; auto.
+Qed.
+
+Lemma frame_err_class s off n fin cb s' e : RSInv S s -> 0 <= off -> 0 <= n ->
+  handleStreamFrame s (slice S off n) off fin cb = (s', e) ->
+  e = FNil \/ e = FFinalSize \/ e = FFlowControl \/
+  (e = FSorter /\ MaxGaps < Z.of_nat (length (gaps (sorter s')))).
+Proof.
+  intros R H0 Hn H. unfold handleStreamFrame in H. rewrite len_slice in H by lia.
+  destruct (fcUpdate s (off + n) fin) as [s1 e1] eqn:Ef.
+  destruct (fcUpdate_classes _ _ _ _ _ Ef) as [->|[->| ->]]; [|inversion H; auto|inversion H; auto].
+  destruct (fcUpdate_ok _ _ _ _ Ef) as (A1&_&_&_&_&_&_&A8&_&_&_&_&_&A14&_&_).
+  set (s2 := if fin then set_final s1 (off + n) else s1) in *.
+  assert (B : sorter s2 = sorter s) by (unfold s2; destruct fin; simpl; auto).
+  destruct (cancelledLocally s2); [inversion H; auto|].
+  destruct (Push (sorter s2) (slice S off n) off cb) as [q rr] eqn:EP. rewrite B in EP.
+  pose proof (v_win _ _ R) as VW.
+  assert (Hmax : off + n < MaxBC).
+  { destruct (Z.le_gt_cases (off + n) (fc_highest s)); [lia|]. specialize (A14 ltac:(lia)). lia. }
+  destruct (Push_post S _ _ _ _ _ _ (v_inv _ _ R) H0 Hn Hmax EP) as ([->| ->]&_); inversion H; subst; simpl; auto.
+  right. right. right. split; auto.
+  destruct (inc_own (set_sorter s2 q)) as (->&_). simpl.
+  exact (push_refused_count S _ _ _ _ _ (v_inv _ _ R) H0 Hn Hmax EP).
+Qed.
+
+Lemma reset_err_class s final reliable code s' e : handleResetStreamFrame s final reliable code = (s', e) ->
+  e = FNil \/ e = FFinalSize \/ e = FFlowControl.
+Proof.
+  unfold handleResetStreamFrame. intros H. destruct (shutdown s); [inversion H; auto|].
+  destruct (fcUpdate s final true) as [s1 e1] eqn:Ef.
+  destruct (fcUpdate_classes _ _ _ _ _ Ef) as [->|[->| ->]]; [|inversion H; auto|inversion H; auto].
+  revert H. repeat match goal with |- context [if ?c then _ else _] => destruct c end; intros H; inversion H; auto.
+Qed.
+
+(* what a failing step is *)
+Definition transport_error (r : rrun) (o : rop) : Prop :=
+  match o with
+  | ROFrame off n fin cb => exists s' e, handleStreamFrame (rr_st r) (slice S off n) off fin cb = (s', e) /\
+      (e = FFinalSize \/ e = FFlowControl \/ (e = FSorter /\ MaxGaps < Z.of_nat (length (gaps (sorter s')))))
+  | ROReset final reliable code => exists s' e, handleResetStreamFrame (rr_st r) final reliable code = (s', e) /\
+      (e = FFinalSize \/ e = FFlowControl)
+  | _ => False
+  end.
+
+Lemma rstep_none r o : RRInv S r -> rvalid o -> rstep S r o = None -> transport_error r o.
+Proof.
+  intros [R _ _] Hv Hs. destruct o as [off n fin cb|final reliable code|n|n|code|]; simpl in *.
+  - destruct Hv as (V1&V2).
+    destruct (handleStreamFrame (rr_st r) (slice S off n) off fin cb) as [s' e] eqn:EH.
+    exists s', e. split; auto.
+    destruct (frame_err_class _ _ _ _ _ _ _ R V1 V2 EH) as [->|[->|[->|(->&Hc)]]]; auto. discriminate.
+  - destruct (handleResetStreamFrame (rr_st r) final reliable code) as [s' e] eqn:EH.
+    exists s', e. split; auto. destruct (reset_err_class _ _ _ _ _ _ EH) as [->|[->| ->]]; auto. discriminate.
+  - destruct (Read (rr_st r) n) as [[[s' d] e] bug] eqn:ER.
+    destruct (Read_spec S _ _ _ _ _ _ R Hv ER) as (->&_). discriminate.
+  - destruct (PeekS (rr_st r) n) as [[[s' d] e] bug] eqn:EP.
+    destruct (Peek_state S _ _ _ _ _ _ R EP) as (->&_). discriminate.
+  - discriminate.
+  - discriminate.
+Qed.
+
+(** the model's Bug values (sorter panics, fuel) are unreachable from the stream: a history fails
+    only at a STREAM frame rejected with FINAL_SIZE_ERROR / FLOW_CONTROL_ERROR / the sorter's gap
+    limit (more than MaxStreamFrameSorterGaps gaps), or at a RESET_STREAM(_AT) rejected with
+    FINAL_SIZE_ERROR / FLOW_CONTROL_ERROR *)
+Theorem recv_fails_only_on_transport_error w ops : 0 <= w < MaxBC -> Forall rvalid ops ->
+  rsrun S (rrun_init w) ops = None ->
+  exists pre o rest r, ops = pre ++ o :: rest /\ rsrun S (rrun_init w) pre = Some r /\ transport_error r o.
+Proof.
+  intros Hw Hv. assert (G : forall r0, RRInv S r0 -> rsrun S r0 ops = None ->
+    exists pre o rest r, ops = pre ++ o :: rest /\ rsrun S r0 pre = Some r /\ transport_error r o).
+  { induction ops as [|o ops IH]; intros r0 R Hs; simpl in Hs; [discriminate|].
+    inversion Hv; subst. destruct (rstep S r0 o) as [r1|] eqn:E1.
+    - destruct (IH H2 _ (rstep_RRInv S _ _ _ R H1 E1) Hs) as (pre&o'&rest&r&A&B&C).
+      exists (o :: pre), o', rest, r. simpl. rewrite E1. subst ops. auto.
+    - exists [], o, ops, r0. simpl. split; auto. split; auto. eapply rstep_none; eauto. }
+  apply G. apply RRInv_init. exact Hw.
 Qed.
 
 End WithS.
